@@ -49,6 +49,7 @@ pub fn registry() -> Vec<Contract> {
     v.extend(crate::verif_exec_crash::contracts());
     v.extend(crate::verif_exec_misc::contracts());
     v.extend(crate::verif_exec_merkle::contracts());
+    v.extend(crate::verif_exec_deps::contracts());
     v
 }
 
